@@ -3,7 +3,7 @@
 From Coq Require Import List Bool Arith ZArith.
 Import ListNotations.
 Require Import Nib.C01.Model Nib.C01.Spec.
-Open Scope Z_scope.
+Local Open Scope Z_scope.
 
 Fixpoint zlist_eqb (a b : list Z) : bool :=
   match a, b with
